@@ -189,7 +189,10 @@ func init() {
 	// ---- sync.Pool through bufferPool: modelled at the package's own wrapper level by contracts;
 	// the raw pool returns an arbitrary previously stored object or a new one.
 	regModel("(*sync.Pool).Get", func(x *Exec, fr *Frame, st *State, a []Value, pos token.Pos, rt types.Type) (Value, bool) {
-		return x.fresh(rt, "poolget"), true
+		// pools never hold typed-nil pointers (every Put in the package passes a non-nil object)
+		r := x.fresh(rt, "poolget").(VIface)
+		x.vc.Assert(Implies(Neq(r.Tag, IntLit(0)), Neq(r.Val, IntLit(0))))
+		return r, true
 	})
 	regModel("(*sync.Pool).Put", func(x *Exec, fr *Frame, st *State, a []Value, pos token.Pos, rt types.Type) (Value, bool) {
 		return VStruct{}, true
